@@ -26,8 +26,14 @@ func (c *call) planLine() string {
 	if c.val != "" && len(c.val) <= 8 {
 		s += " val=" + hx.Hex([]byte(c.val))
 	}
+	if c.dirTok != "" {
+		s += fmt.Sprintf(" dir=%s stop=%d", c.dirTok, c.stop)
+	}
 	for _, wr := range c.writes {
 		s += " " + wr.kind + ":" + hx.Hex([]byte(wr.key))
+		if wr.kind == "set" {
+			s += "=" + hx.Hex([]byte(wr.val))
+		}
 	}
 
 	return s
@@ -40,8 +46,8 @@ func planLines(plans [][]call) []string {
 			out = append(out, plans[i][j].planLine())
 		}
 	}
-	if len(out) > 600 {
-		out = out[:600]
+	if len(out) > 700 {
+		out = out[:700]
 	}
 
 	return out
